@@ -165,7 +165,30 @@ def e2e_spec(o):
     if o["exit_code"] != 0:
         return ("e2e-exit", "sx arp --live exits with code %d after SIGINT: %s" % (o["exit_code"], o["stderr"][:200]))
     n = len(want)
-    passes = [reqs[i:i + n] for i in range(0, len(reqs), n)]
+    if o.get("rate", 0) > 0:
+        # a rate-limited scan of a subnet bigger than the buffers of the pipeline: a pass lasts longer than the
+        # interval; on the wire consecutive passes touch (the packet workers reorder around the boundary), so the
+        # passes are judged by how often each address was probed: after k complete passes and a partial one every
+        # address has been probed k or k+1 times
+        import collections
+        cnt = collections.Counter(a["target"] for a in reqs)
+        foreign = [t for t in cnt if t not in want]
+        if foreign:
+            return ("e2e-foreign", "%s is probed although excluded or outside %s" % (foreign[0], o["subnet"]))
+        m = max(cnt.values()) if cnt else 0
+        low = [t for t in want if cnt.get(t, 0) < m - 1]
+        if m >= 2 and len(low) > 0.02 * n:
+            hist = collections.Counter(cnt.get(t, 0) for t in want)
+            return ("e2e-pass-incomplete",
+                    "sx arp --live %dms --rate %d/s %s (a pass needs %.0f ms): %d of %d addresses were probed fewer than %d "
+                    "times while others were probed %d times (probes per address -> addresses: %s), e.g. %s: passes after "
+                    "the first are not complete" % (o["interval_ms"], o["rate"], o["subnet"], 1000.0 * n / o["rate"],
+                                                    len(low), n, m - 1, m, dict(sorted(hist.items())), low[:3]))
+        if reqs and (o["sigint"] - reqs[0]["t"]) / 1e6 >= 2.5 * (1000.0 * n / o["rate"] + o["interval_ms"]) + 300 and m < 2:
+            return ("e2e-stops", "no address was probed twice: passes do not keep coming")
+        passes = []
+    else:
+        passes = [reqs[i:i + n] for i in range(0, len(reqs), n)]
     for k, p in enumerate(passes):
         tg = [a["target"] for a in p]
         full = len(p) == n
@@ -180,7 +203,7 @@ def e2e_spec(o):
         if gap < o["interval_ms"] - tol:
             return ("e2e-interval", "pass %d starts %.0f ms after pass %d ended, the interval is %d ms" % (
                 k + 1, gap, k, o["interval_ms"]))
-    if reqs:
+    if reqs and not o.get("rate", 0):
         complete = sum(1 for p in passes if len(p) == n)
         span = (o["sigint"] - reqs[0]["t"]) / 1e6
         if span >= 2 * o["interval_ms"] + 250 and complete < 2:
@@ -199,12 +222,41 @@ def e2e_spec(o):
     return None
 
 
+def real_spec(o):
+    """The REAL generator chain of sx arp behind the live generator, consumer slower than the interval: every pass
+    must still be every address of the subnet exactly once."""
+    import ipaddress
+    if o["stuck"] or not o["closed"]:
+        return ("hang", "the live generator over the real generators does not end after the cancellation")
+    want = sorted(str(a) for a in ipaddress.ip_network(o["real"]))
+    n = len(want)
+    got = o["out_ips"][:o["before"]] if o["before"] else o["out_ips"]
+    took = o["consume_us"] * n / 1000.0
+    for k in range(0, len(got) // n):
+        p = got[k * n:(k + 1) * n]
+        if sorted(p) != want:
+            missing = [a for a in want if a not in p]
+            return ("real-pass-incomplete",
+                    "real generators over %s behind NewLiveRequestGenerator(%.1f ms), consumer taking %.1f ms per request "
+                    "(a pass lasts %.0f ms): pass %d is not every address exactly once: %d distinct of %d, missing e.g. %s%s"
+                    % (o["real"], o["rescan_us"] / 1000.0, o["consume_us"] / 1000.0, took, k, len(set(p)), n, missing[:3],
+                       "; the delegate was handed a context with a deadline for call(s) %s" % [
+                           i for i, d in enumerate(o["deadlines"]) if d] if any(o["deadlines"]) else ""))
+    starts = o["starts"]
+    for k in range(len(starts) - 1):
+        # a pass of the slow consumer lasts `took`; the next delegate call comes no earlier than interval after its start
+        if starts[k + 1] - starts[k] < o["rescan_us"] * 1000 - TOL_NS:
+            return ("interval", "delegate call %d comes %.3f ms after call %d, the interval is %.3f ms" % (
+                k + 1, (starts[k + 1] - starts[k]) / 1e6, k, o["rescan_us"] / 1000.0))
+    return None
+
+
 def report(ctx, o, key, why):
     tag = "%s-%d" % (re.sub(r"\W+", "_", key)[:30], len(ctx.findings))
     path = ctx.write_replay(tag, {
         "property": "C19", "what": why,
         "input": {"class": o["class"], "script": o["script"], "cap": o["cap"], "rescan_us": o["rescan_us"],
-                  "cancel_after": o["cancel_after"]},
+                  "cancel_after": o["cancel_after"], "consume_us": o.get("consume_us", 0)},
         "observed": {k: o[k] for k in ("trace", "outs", "calls", "before", "closed", "starts", "closes", "stuck", "start_err")},
         "replay_cmd": "bin/check C19 --replay <this file>"})
     ctx.findings.append({"key": key, "what": why, "replay": path})
@@ -235,10 +287,11 @@ def run(ctx):
     gen_ok = ctx.gen()
     model_ok = gen_ok and ctx.coq_model(["Spec/C19.vo"])
     proof_ok = gen_ok and ctx.coq_proofs("Properties/C19.v")
-    rows, e2e = [], []
+    rows, e2e, reals = [], [], []
     if ctx.harness_build("c19"):
         args = ["-out", "cases.jsonl", "-seed", ctx.seed, "-corpus", os.path.join(verif.ROOT, "corpus", "C19")]
-        args += ["-ntrace", 150, "-nseq", 70, "-every", 5] if quick else ["-ntrace", 3000, "-nseq", 1200, "-every", 40]
+        args += (["-ntrace", 150, "-nseq", 70, "-every", 5, "-nslow", 4] if quick else
+                 ["-ntrace", 3000, "-nseq", 1200, "-every", 40, "-nslow", 40])
         # end to end: the unmodified binary in a private network namespace
         sx = os.path.join(ctx.work, "sx")
         rc, out = verif.sh(["go", "build", "-o", sx, "."], env=verif.GOENV, cwd=verif.REPO, timeout=900)
@@ -249,8 +302,9 @@ def run(ctx):
         ok, _ = ctx.harness_run("c19", args, timeout=1500)
         if ok:
             allrows = ctx.read_jsonl(os.path.join(ctx.work, "cases.jsonl"))
-            rows = [o for o in allrows if o["kind"] != "e2e"]
+            rows = [o for o in allrows if o["kind"] in ("trace", "seq")]
             e2e = [o for o in allrows if o["kind"] == "e2e"]
+            reals = [o for o in allrows if o["kind"] == "real"]
     for o in e2e:
         if o.get("skipped"):
             ctx.skipped.append("e2e: " + o["skipped"])
@@ -270,12 +324,27 @@ def run(ctx):
                 "observed": {"seen": o["seen"][:80], "stdout": o["stdout"], "exit_code": o["exit_code"], "stderr": o["stderr"]},
                 "replay_cmd": "bin/check C19 --replay <this file>"})
             ctx.findings.append({"key": r[0], "what": r[1], "replay": path})
+    for o in reals:
+        ctx.count(o["class"], (o["real"], o["rescan_us"], o["consume_us"]), nontrivial=True,
+                  sample={"real_generators_over": o["real"], "rescan_us": o["rescan_us"], "consume_us": o["consume_us"],
+                          "delegate_calls": o["calls"], "requests": len(o["out_ips"]), "first": o["out_ips"][:6]})
+        r = real_spec(o)
+        if r and r[0] not in [f["key"] for f in ctx.findings]:
+            path = ctx.write_replay("real-%d" % len(ctx.findings), {
+                "property": "C19", "what": r[1],
+                "input": {"class": o["class"], "real": o["real"], "rescan_us": o["rescan_us"], "consume_us": o["consume_us"],
+                          "passes": o["passes"], "cancel_after": o["cancel_after"], "script": [], "cap": 0},
+                "observed": {"out_ips": o["out_ips"][:120], "calls": o["calls"], "starts": o["starts"],
+                             "deadlines": o["deadlines"], "closed": o["closed"]},
+                "replay_cmd": "bin/check C19 --replay <this file>"})
+            ctx.findings.append({"key": r[0], "what": r[1], "replay": path})
     for o in rows:
-        key = (json.dumps(o["script"]), o["cap"], o["cancel_after"])
+        key = (json.dumps(o["script"]), o["cap"], o["cancel_after"], o.get("consume_us", 0))
         inside = o["cancel_after"] < (1 << 29) and o["cancel_after"] >= 0
         ctx.count(o["class"], key, nontrivial=(o["calls"] >= 2 or inside),
                   sample={"script": [("fail" if p["fail"] else p["reqs"][:6]) for p in o["script"]], "cap": o["cap"],
-                          "rescan_us": o["rescan_us"], "cancel_after": o["cancel_after"], "trace": o["trace"][:14],
+                          "rescan_us": o["rescan_us"], "cancel_after": o["cancel_after"], "consume_us": o.get("consume_us", 0),
+                          "trace": o["trace"][:14],
                           "outs": o["outs"][:12], "calls": o["calls"], "closed": o["closed"]})
     if rows:
         judge(ctx, rows)
@@ -310,10 +379,26 @@ def run(ctx):
                     o["cap"], o["cancel_after"], o["calls"], "; ".join(SEQ_CODES[c] for c in codes)), json.dumps(o)[:900]))
             ctx.cov["traces_validated_against_impl"] += len(tr) + len(sq)
     if ctx.broken and not ctx.findings and os.path.exists(os.path.join(verif.HBIN, "c19")):
-        ok, _ = ctx.harness_run("c19", ["-out", "search.jsonl", "-seed", ctx.seed + 7, "-ntrace", 1500, "-nseq", 600,
-                                        "-every", 20], timeout=1500)
+        sargs = ["-out", "search.jsonl", "-seed", ctx.seed + 7, "-ntrace", 1500, "-nseq", 600, "-every", 20, "-nslow", 30]
+        sx = os.path.join(ctx.work, "sx")
+        if os.path.exists(sx):
+            # the rate-limited scans of a /20 (passes longer than the interval), 4 s each
+            sargs += ["-e2e", 2, "-e2ebig", "-sx", sx]
+        ok, _ = ctx.harness_run("c19", sargs, timeout=1500)
         if ok:
-            judge(ctx, ctx.read_jsonl(os.path.join(ctx.work, "search.jsonl")))
+            more = ctx.read_jsonl(os.path.join(ctx.work, "search.jsonl"))
+            judge(ctx, [o for o in more if o["kind"] in ("trace", "seq")])
+            for o in more:
+                r = None
+                if o["kind"] == "real":
+                    r = real_spec(o)
+                elif o["kind"] == "e2e" and not o.get("skipped"):
+                    r = e2e_spec(o)
+                if r and r[0] not in [f["key"] for f in ctx.findings]:
+                    path = ctx.write_replay("search-%d" % len(ctx.findings), {
+                        "property": "C19", "what": r[1], "input": {"e2e": o["kind"] == "e2e", "class": o["class"]},
+                        "observed": {k: v for k, v in o.items() if k != "seen"}})
+                    ctx.findings.append({"key": r[0], "what": r[1], "replay": path})
     return ctx.finish(rule=RULE)
 
 
@@ -330,7 +415,7 @@ def replay(ctx, path):
         if rc != 0:
             print(out[-500:])
             return 1
-        ok, _ = ctx.harness_run("c19", ["-out", "one.jsonl", "-ntrace", 0, "-nseq", 0, "-every", 0, "-e2e", 4, "-sx", sx],
+        ok, _ = ctx.harness_run("c19", ["-out", "one.jsonl", "-ntrace", 0, "-nseq", 0, "-every", 0, "-nslow", 0, "-e2e", 6, "-sx", sx],
                                 timeout=300)
         bad = 0
         for o in ctx.read_jsonl(os.path.join(ctx.work, "one.jsonl")):
